@@ -112,7 +112,14 @@ CHECKS.update({
             "Trusted: vp/docs_frozen.py as the reading of the documentation (where the docs leave two readings, e.g. median of records vs of per-individual medians, both are accepted and counted); dataset statistics by numpy.", "DESIGN.md §3 C09"),
 })
 
-READY = ["C09", "C12", "C15", "C01", "C03", "C04", "C06", "C07", "C08", "C05", "C10", "C11", "C13", "C14", "C17", "C18", "C19", "C20"]
+CHECKS.update({
+    "C16": ("fault_enumeration",
+            "audit-hook crash injection (vp/crashfs.py): every file-system mutation event of a workload (open for writing, mkdir, remove, rename/replace, symlink, utime ...) is a crash point; forked children re-run the workload and raise / die / die after tearing the last written file at each point, a fresh process restarts on the directory and evaluates the recovery oracle; fidelity monitor with hostile strings; concurrent real processes",
+            "Workloads of <= 4 store/log/annotation operations over <= 3 models (two sharing a dataset); for EVERY crash point and the three flavours (exception, process death, torn last write): no partial entry visible as complete, everything that had returned before the fault still retrievable and faithful, storing the other models afterwards succeeds. Exhaustive over crash points per workload; workloads, tear offsets and concurrent schedules are sampled. Fidelity: entries, annotations, metadata and log rows with hostile strings are retrieved by key and by name and compared verbatim / cell-exact.",
+            "Trusted: sys.addaudithook event stream as the set of mutation points (a probe measured ~30 events per store); 'committed' = the pharmpy call had returned before the fault (DESIGN.md A.5). Power-loss reordering of closed files and faults inside read paths are out of scope.", "DESIGN.md §3 C16, §2.5"),
+})
+
+READY = ["C16", "C09", "C12", "C15", "C01", "C03", "C04", "C06", "C07", "C08", "C05", "C10", "C11", "C13", "C14", "C17", "C18", "C19", "C20"]
 
 NOT_BUILT = "check not built yet in this session (design in DESIGN.md); not claimed"
 
